@@ -165,7 +165,7 @@ def path_key(p):
 TOKEN_BASE = 7_000_000
 
 
-def trace(transform, doc, paths):
+def trace(transform, doc, paths, _second_pass=False):
     """run `transform` on doc with unique concrete tokens -> (mapping location-key -> source path key | constant, consumed paths)"""
     values = [TOKEN_BASE + 13 * i for i in range(len(paths))]
     out = flatten(transform(with_tokens(doc, paths, values)))
@@ -178,4 +178,13 @@ def trace(transform, doc, paths):
             seen.add(by_value[val])
         else:
             table[loc_key(loc)] = {"const": jsonable(val)}
-    return table, [p for p in paths if p not in seen]
+    unused = [p for p in paths if p not in seen]
+    if unused and not _second_pass:
+        # second pass: leaves that do not reach the output by identity keep their BASE value (that is what the checks do), so that
+        # constants derived from them (flags turned into bools, lookups) are pinned at the BASE value
+        used = [p for p in paths if p in seen]
+        table2, unused2 = trace(transform, doc, used, _second_pass=True)
+        if unused2:
+            raise AssertionError(f"token flow changed when ignored leaves kept their BASE value: {unused2[:3]}")
+        return table2, unused
+    return table, unused
